@@ -926,26 +926,29 @@ void gen_c17(Plan& p, bool thorough) {
 void gen_c18(Plan& p, bool thorough) {
   // run -> (parameter set, target, slice of allocation indices). ZKB++ calls make a handful of allocations (enumerated
   // completely in every run); KKW calls make thousands: complete in thorough, strided + both ends in quick.
+  // Targets: sign, verify of a valid signature, of one with a random flipped byte, of a truncated one, keygen; thorough adds
+  // one target per kind of field carrying the single defect, so that each kind is enumerated completely as well.
   static const char* targets[] = {"sign", "verify", "verifybad", "verifytrunc", "keygen"};
+  static const std::vector<std::string> kkw_fields = {"challenge", "salt", "iSeedInfo", "cvInfo", "seedInfo", "aux", "input", "msgs", "C "};
+  static const std::vector<std::string> zkb_fields = {"challenge", "salt", "commitment", "view", "seed_a", "seed_b", "inputshare3", "G "};
   int param = (int)(p.run % 12) + 1;
   const model::Params& pp = *model::params(param);
-  int ti = (int)((p.run / 12) % 5);
-  uint64_t slice = p.run / 60;
+  const auto& fl = pp.kkw ? kkw_fields : zkb_fields;
+  const uint64_t ntargets = thorough ? 5 + kkw_fields.size() : 5;
+  int ti = (int)((p.run / 12) % ntargets);
+  uint64_t slice = p.run / (12 * ntargets);
   Rng r = rng_for(p.seed, {H("C18"), (uint64_t)param, (uint64_t)ti});
   p.tasks.resize(1);
   Case km = keymsg_case(r, param);
   km.set("kpat", "rand").set("mlen", 40);
-  km.set("op", "allocfail").set("target", targets[ti]).set("node", (slice & 1) ? "sse2" : "avx2").setu("bit", r.next() >> 8).setu("rseed", r.next() >> 20);
+  km.set("op", "allocfail").set("target", targets[ti < 5 ? ti : 2]).set("node", (slice & 1) ? "sse2" : "avx2").setu("bit", r.next() >> 8).setu("rseed", r.next() >> 20);
+  if (ti >= 5)
+    km.set("vfield", fl[(size_t)(ti - 5) % fl.size()]);
+  else if (ti == 2 && !thorough && slice > 0 && pp.kkw)
+    km.set("vfield", fl[(slice + p.seed) % fl.size()]); // quick: one kind per seed for the expensive KKW calls
   int N = pp.kkw ? 4096 : 16;
   uint64_t nslices = thorough ? 16 : 2;
-  // the invalid signature's single defect rotates through every kind of field (slice 0 of quick: a random byte)
-  static const std::vector<std::string> kkw_fields = {"challenge", "salt", "iSeedInfo", "cvInfo", "seedInfo", "aux", "input", "msgs", "C "};
-  static const std::vector<std::string> zkb_fields = {"challenge", "salt", "commitment", "view", "seed_a", "seed_b", "inputshare3", "G "};
-  if (ti == 2 && (thorough || slice > 0)) {
-    const auto& fl = pp.kkw ? kkw_fields : zkb_fields;
-    km.set("vfield", fl[(slice + p.seed) % fl.size()]);
-  }
-  if (slice < nslices && ti == 2 && !pp.kkw) {
+  if (slice < nslices && ti == 2 && !pp.kkw && !thorough) {
     // ZKB++ calls make a handful of allocations: every index x every kind of field carrying the single defect
     for (auto& vf : zkb_fields)
       for (int k = 0; k < N; k++) {
@@ -988,7 +991,7 @@ uint64_t default_runs(const std::string& prop, const std::string& tier) {
   };
   static const R tab[] = {{"C01", 480, 4800},  {"C02", 600, 2400 + 384}, {"C03", 288, 2400}, {"C04", 120, 960},  {"C05", 480, 4800}, {"C06", 480, 2880},
                           {"C07", 144, 288},   {"C09", 480, 2400},       {"C10", 480, 1920},  {"C11", 96, 192},   {"C12", 144, 12 * 36},  {"C13", 721, 3601},
-                          {"C14", 1440, 600 + 4 * 507}, {"C15", 480, 7200},  {"C16", 288, 1920},  {"C17", 25, 49}, {"C18", 180, 60 * 16 + 240}};
+                          {"C14", 1440, 600 + 4 * 507}, {"C15", 480, 7200},  {"C16", 288, 1920},  {"C17", 25, 49}, {"C18", 180, 12 * 14 * 16 + 12 * 14}};
   for (auto& r : tab)
     if (prop == r.p)
       return th ? r.t : r.q;
